@@ -32,6 +32,7 @@ FLAVOURS = {
 CONTRACTS = {
     "cc": ["-DTETL_ENABLE_CONTRACT_CHECKS=1"],
     "safe": ["-DTETL_ENABLE_CONTRACT_CHECKS_SAFE=1"],
+    "ccsafe": ["-DTETL_ENABLE_CONTRACT_CHECKS=1", "-DTETL_ENABLE_CONTRACT_CHECKS_SAFE=1"],  # what the project's CMake defines when TETL_BUILD_CONTRACT_CHECKS_SAFE is ON
     "nocc": [],
 }
 RUN_ENV = {
